@@ -347,9 +347,9 @@ CLAIMS = {
              'cookie paths after every click)',
         technique='Lean 4 proof (arithmetic + induction for the codec; refinement to a set-of-paths spec for the state) '
                   '+ correspondence; the state model applyDiff is proved equal to TreeTag.apply_diff translated from the '
-                  'source statement by statement on every run (gen_apply_diff_is_model, gen_apply_diff_is_click)',
-                  '+ correspondence; the codec functions regenerated from the source on every run '
-                  '(statement-by-statement translator, equality with the hand-written model proved)',
+                  'source statement by statement on every run (gen_apply_diff_is_model, gen_apply_diff_is_click); the codec '
+                  'functions regenerated from the source on every run (statement-by-statement translator, equality with the '
+                  'hand-written model proved)',
         ref='DESIGN.md §5 C20'),
     'C06': dict(
         text='Lean 4 theorems about the parser model (hand-compiled scanners, tokeniser, attribute grammar, tag roles, '
